@@ -40,3 +40,11 @@ Definition picked_up (noise : list N) (f : frame) (k : nat) : bool :=
 Definition C14_resync_full_statement : Prop :=
   forall noise f k, wf_frame f = true -> deliverable f = true ->
     Nat.leb (2 + Nat.div 1000 (length (enc f))) k = true -> picked_up noise f k = true.
+
+(* ... and it does hold, for ANY noise, of every frame whose encoding carries no start delimiter
+   after its first byte *)
+Definition no104 (b : N) : bool := negb (b =? 104).
+Definition no_interior (f : frame) : bool := forallb no104 (tl (enc f)).
+Definition C14_resync_interior_free_statement : Prop :=
+  forall noise f k, wf_frame f = true -> deliverable f = true -> no_interior f = true ->
+    Nat.leb (2 + Nat.div 1000 (length (enc f))) k = true -> picked_up noise f k = true.
